@@ -1178,7 +1178,13 @@ public:
     abs_dom_t invariant = get_forward_invariant(&stmt);
     CRAB_LOG("backward-tr", crab::outs() << "** " << stmt << "\n"
                                          << "\tPOST=" << m_pre << "\n");
-    m_pre.backward_assign(stmt.dst(), stmt.src(), std::move(invariant));
+    if (stmt.dst().get_type().is_bool() || stmt.src().get_type().is_bool()) {
+      // The numerical backward assignment does not reach the Boolean
+      // value of dst (or src).
+      m_pre -= stmt.dst();
+    } else {
+      m_pre.backward_assign(stmt.dst(), stmt.src(), std::move(invariant));
+    }
     CRAB_LOG("backward-tr", crab::outs() << "\tPRE=" << m_pre << "\n");
   }
 
